@@ -26,7 +26,7 @@ type c07Shape struct {
 
 type c07Fault struct {
 	B         Boundary `json:"boundary"`
-	Kind      string   `json:"kind"`      // kill-after | session-expire
+	Kind      string   `json:"kind"`      // kill-after | session-expire | zk-outage
 	Successor string   `json:"successor"` // same-host | other-host (kill-after only)
 }
 
@@ -155,7 +155,13 @@ func c07Scenario(u *Unit, name string, sh c07Shape, fault *c07Fault) (*Tracker, 
 					s.StartInst(killedHost, 0)
 				}
 			}
-			s.WaitUntil(2*time.Minute, 500*time.Millisecond, func() bool { h := lockHolder(s); return h != "" && (h != mgr || fault.Kind == "session-expire") })
+			if fault.Kind == "zk-outage" {
+				time.Sleep(62 * time.Second) // the outage: 25 s for the manager, 60 s for the others
+			}
+			s.WaitUntil(2*time.Minute, 500*time.Millisecond, func() bool {
+				h := lockHolder(s)
+				return h != "" && (h != mgr || fault.Kind == "session-expire" || fault.Kind == "zk-outage")
+			})
 			successor = lockHolder(s)
 		}
 		if sh.Req == "auto_crash" {
@@ -209,6 +215,8 @@ func c07Scenario(u *Unit, name string, sh c07Shape, fault *c07Fault) (*Tracker, 
 				switch {
 				case fault.Kind == "session-expire":
 					succKind = "session-loss"
+				case fault.Kind == "zk-outage":
+					succKind = "after-outage"
 				case in != nil && in.Host == killedHost:
 					succKind = "same-host"
 				default:
@@ -289,7 +297,7 @@ func c14Run(u *Unit) {
 
 func c07Run(u *Unit) {
 	sh := c07Gen(u.Seed, u.Idx)
-	c07Faulted(u, sh, fmt.Sprintf("c07-%d-%s", u.Idx, sh.Req), nil, tierN(u.Job.Tier, 16, 1000), 10)
+	c07Faulted(u, sh, fmt.Sprintf("c07-%d-%s", u.Idx, sh.Req), nil, tierN(u.Job.Tier, 18, 1000), 10)
 }
 
 // c07Faulted runs the fault-free baseline of a shape and then one scenario per sampled (call, fault kind) from the
@@ -327,7 +335,7 @@ func c07Faulted(u *Unit, sh c07Shape, base string, from func([]Boundary) int, n,
 	}
 	var faults []c07Fault
 	for _, b := range bs {
-		faults = append(faults, c07Fault{b, "kill-after", "other-host"}, c07Fault{b, "kill-after", "same-host"}, c07Fault{b, "session-expire", ""})
+		faults = append(faults, c07Fault{b, "kill-after", "other-host"}, c07Fault{b, "kill-after", "same-host"}, c07Fault{b, "session-expire", ""}, c07Fault{b, "zk-outage", ""})
 	}
 	r := rand.New(rand.NewSource(u.Seed ^ 0x7007))
 	r.Shuffle(len(faults), func(i, j int) { faults[i], faults[j] = faults[j], faults[i] })
@@ -347,6 +355,15 @@ func c07Faulted(u *Unit, sh c07Shape, base string, from func([]Boundary) int, n,
 			k++
 		}
 	}
+	// ... and the next four are losses of the coordination service by everybody right after such a call, with the same
+	// process as the next manager
+	for i, k2 := k, 0; i < len(faults) && k2 < 4 && k < n; i++ {
+		if faults[i].Kind == "zk-outage" && faults[i].B.Mut {
+			faults[k], faults[i] = faults[i], faults[k]
+			k++
+			k2++
+		}
+	}
 	for i := 0; i < n; i++ {
 		f := faults[i]
 		name := fmt.Sprintf("%s-f%d-%s-%s-%s", base, i, f.Kind, f.Successor, strings.ReplaceAll(f.B.Key(), "|", "_"))
@@ -360,7 +377,7 @@ func init() {
 		Rule:  "cluster part: unit = shape (3-4 HA, wait count, force_switchover, manager location) with the master holding the highest priority and a switch --from request; a fault-free baseline, then one run per sampled (call from the move of the master key onwards x {manager dies with same-host / other-host successor, session loss}): the successor resumes the request while the from-host is an ordinary replica again; every success record of a from-request is judged against the recorded master; distinct by (n, manager location, force, fault, call class, successor kind)"})
 	register(&Prop{ID: "C07", Units: func(tier string) int { return tierN(tier, 40, 200) }, Run: c07Run,
 		Floor: func(string) []string {
-			return []string{"fault:kill-after", "fault:session-expire", "successor:same-host", "successor:other-host", "successor:session-loss"}
+			return []string{"fault:kill-after", "fault:session-expire", "successor:same-host", "successor:other-host", "successor:session-loss", "successor:after-outage"}
 		},
-		Rule: "unit = shape (2-4 HA, wait count, force_switchover, manager on the master's or a replica's host, slow-applying replica) x request kind; a fault-free baseline records the managing instance's external calls from its first write of the request; then one run per (call x {manager dies right after the call took effect with the same host / another host as successor, manager loses its session and lives on}) — 16 sampled in quick (the first ten among the calls that changed something), all in thorough; clients commit throughout; non-trivial = the fault hit; distinct by (request, n, manager location, force, fault, call class, successor kind)"})
+		Rule: "unit = shape (2-4 HA, wait count, force_switchover, manager on the master's or a replica's host, slow-applying replica) x request kind; a fault-free baseline records the managing instance's external calls from its first write of the request; then one run per (call x {manager dies right after the call took effect with the same host / another host as successor, manager loses its session and lives on, every daemon loses the coordination service and the same process is the next manager}) — 18 sampled in quick (the first ten deaths and the next four outages among the calls that changed something), all in thorough; clients commit throughout; non-trivial = the fault hit; distinct by (request, n, manager location, force, fault, call class, successor kind)"})
 }
